@@ -251,6 +251,9 @@ class RefRun:
             if len(pp.basename(d).encode()) > 255:
                 # creating the directories fails part-way: no effect remains
                 raise OSError(36, 'File name too long')
+            if '\0' in pp.basename(d):
+                # a name no file can have: os.mkdir raises ValueError; no effect remains
+                raise ValueError('embedded null byte')
         for d in reversed(mk):
             self.fs.t[d] = ('d',)
             self.created.add(d)
